@@ -767,6 +767,94 @@ func (g *SpecGen) recordContracts(r *Record) {
 	g.encodeContract(r)
 	g.unmarshalContract(r)
 	g.makeContracts(r)
+	g.decodeContract(r)
+}
+
+const erT = "*iohelp.ErrorReader"
+
+// allocK: at most this many bytes of make()-requested memory per input byte.
+const allocK = 64
+
+// streamMods is what a stream decoder may modify besides its receiver.
+func (g *SpecGen) streamMods(er string, r *Record) string {
+	return fmt.Sprintf("%s.Err, %s.Reader, %s.buffer[0:8], taken(), failed(), any(io.LimitedReader.N), %s, fresh(byte), fresh(iohelp.ErrorReader), fresh(io.LimitedReader), tr(), hw(), alloc()", er, er, er, g.freshFor(r))
+}
+
+// decodeContract: DecodeBebop on an arbitrary (possibly failing) reader does not panic, and a
+// failure of the underlying reader during the call surfaces as a non-nil error. Stream state is
+// keyed by the root of the reader chain, so installing io.LimitedReader windows does not matter.
+func (g *SpecGen) decodeContract(r *Record) {
+	n := GoTypeName(r.Name, g.o)
+	asp := fmt.Sprintf("asptr(ior, %s)", erT)
+	g.line("func (*%s).DecodeBebop", n)
+	g.line("  requires okRI(ior)")
+	g.line("  ensures [LATCH] (failed(ur(ior)) && !old(failed(ur(ior)))) ==> err != nil")
+	g.line("  ensures [LATCH] istype(ior, %s) ==> okR(%s) && sid(%s.Reader) == old(sid(%s.Reader)) && (old(%s.Err) != nil ==> %s.Err != nil)", erT, asp, asp, asp, asp, asp)
+	g.line("  ensures [CONS] (istype(ior, %s) && err == nil) ==> %s.Reader == old(%s.Reader)", erT, asp, asp)
+	g.line("  modifies *bbp, %s", g.streamMods(asp, r))
+	emitMake := func() {
+		mk := "Make"
+		if g.o.Private {
+			mk = "make"
+		}
+		g.line("func %s%s", mk, n)
+		g.line("  requires r != nil && okR(r)")
+		g.line("  ensures [LATCH] okR(r) && sid(r.Reader) == old(sid(r.Reader)) && (old(r.Err) != nil ==> r.Err != nil)")
+		g.line("  ensures [LATCH] (failed(r.Reader) && !old(failed(r.Reader))) ==> result1 != nil")
+		g.line("  ensures [CONS] result1 == nil ==> r.Reader == old(r.Reader)")
+		g.line("  modifies %s", g.streamMods("r", r))
+	}
+	defer emitMake()
+	if r.Kind == Struct && len(r.Fields) == 0 {
+		return
+	}
+	// loop invariants: the wrapper stays usable and keeps reading from the same root
+	w := &walk{ord: 1}
+	inv := func(k int, extra string) {
+		g.line("  invariant loop %d: r != nil && okR(r) && sid(r.Reader) == old(sid(ur(ior)))", k)
+		if r.Kind == Struct {
+			g.line("  invariant loop %d: r.Reader == old(ur(ior))", k)
+		} else {
+			g.line("  invariant loop %d: baseReader == old(ur(ior))", k)
+		}
+		g.line("  invariant loop %d: (istype(ior, %s) ==> r == %s) && (!istype(ior, %s) ==> isfresh(r) && isfresh(r.buffer))", k, erT, asp, erT)
+		g.line("  invariant loop %d: istype(ior, %s) ==> r.buffer == old(%s.buffer)", k, erT, asp)
+		g.line("  invariant loop %d: (istype(ior, %s) && old(%s.Err) != nil) ==> r.Err != nil", k, erT, asp)
+		if extra != "" {
+			g.line("  invariant loop %d: %s", k, extra)
+		}
+	}
+	var walkArr func(t *Type, v string)
+	walkArr = func(t *Type, v string) {
+		if t.Kind != Arr || (t.Elem.Kind == Prim && t.Elem.Name == "byte") {
+			return
+		}
+		k := w.ord
+		w.ord++
+		nn := ""
+		if strings.HasPrefix(v, "*") {
+			nn = strings.TrimPrefix(v, "*") + " != nil && "
+		}
+		inv(k, fmt.Sprintf("%sranged(%d) == %s", nn, k, v))
+		walkArr(t.Elem, fmt.Sprintf("ranged(%d)[it(%d)]", k, k))
+	}
+	switch r.Kind {
+	case Struct:
+		for _, f := range r.Fields {
+			walkArr(f.Type, g.fieldExpr(r, f))
+		}
+	case Message:
+		k := w.ord
+		w.ord++
+		inv(k, "")
+		for _, f := range msgFields(r, false) {
+			walkArr(f.Type, "*"+g.fieldExpr(r, f))
+		}
+	case Union:
+		k := w.ord
+		w.ord++
+		inv(k, "")
+	}
 }
 
 // flat: the size/enc functions of values of type t read no heap (the value is its own footprint).
@@ -804,18 +892,38 @@ func (g *SpecGen) boundOK(t *Type, seen map[string]bool) bool {
 	return false
 }
 
-// freshAll lists fresh(T) for every type of the package (what a decoder may allocate).
-func (g *SpecGen) freshAll() string {
-	var items []string
+// freshFor lists fresh(T) for every type reachable from record r (what its decoder may allocate).
+func (g *SpecGen) freshFor(r *Record) string {
 	seen := map[string]bool{}
-	for _, id := range g.order {
-		t := g.used[id]
-		if t.Kind == MapK {
-			continue
+	var order []string
+	var visit func(t *Type)
+	visit = func(t *Type) {
+		if seen[t.ID()] {
+			return
 		}
-		te := t.GoType(g.o)
-		if !seen[te] {
-			seen[te] = true
+		seen[t.ID()] = true
+		if t.Elem != nil {
+			visit(t.Elem)
+		}
+		if t.Kind == Rec {
+			rr := g.s.record(t.Name)
+			for _, f := range rr.Fields {
+				visit(f.Type)
+			}
+			for _, b := range rr.Branches {
+				visit(R(b.Name))
+			}
+		}
+		if t.Kind != MapK {
+			order = append(order, t.GoType(g.o))
+		}
+	}
+	visit(R(r.Name))
+	var items []string
+	done := map[string]bool{}
+	for _, te := range order {
+		if !done[te] {
+			done[te] = true
 			items = append(items, "fresh("+te+")")
 		}
 	}
@@ -851,7 +959,9 @@ func (g *SpecGen) unmarshalContract(r *Record) {
 	if bound {
 		g.line("  ensures [BOUND] (old(%s) && err == nil) ==> %s <= len(buf)", zero, g.sizeX(self, "*bbp"))
 	}
-	g.line("  modifies *bbp, %s, tr(), hw(), alloc()", g.freshAll())
+	// no single make() requests memory out of proportion to the input still to be read
+	g.line("  assert after \"make(\": [ALLOC] lastalloc() <= %d * (len(buf) - at)", allocK)
+	g.line("  modifies *bbp, %s, tr(), hw(), alloc()", g.freshFor(r))
 	w := &walk{ord: 1}
 	switch r.Kind {
 	case Struct:
@@ -995,7 +1105,7 @@ func (g *SpecGen) makeContracts(r *Record) {
 	if g.boundOK(self, map[string]bool{}) {
 		g.line("  ensures [BOUND] result1 == nil ==> %s <= len(buf)", g.sizeX(self, "result0"))
 	}
-	g.line("  modifies %s, tr(), hw(), alloc()", g.freshAll())
+	g.line("  modifies %s, tr(), hw(), alloc()", g.freshFor(r))
 }
 
 const ewT = "*iohelp.ErrorWriter"
@@ -1155,7 +1265,7 @@ func (g *SpecGen) walkSize(t *Type, v, pre string, w *walk) {
 	sz := fmt.Sprintf("oh(%s(ranged(%d), it(%d)))", g.fn("sizeel", t.ID()), k, k)
 	szNext := fmt.Sprintf("oh(%s(ranged(%d), it(%d) + 1))", g.fn("sizeel", t.ID()), k, k)
 	g.line("  invariant loop %d: ranged(%d) == %s", k, k, v)
-	g.line("  invariant loop %d: bodyLen == %s + 4 + %s && UnfI(%s)", k, pre, sz, sz)
+	g.line("  invariant loop %d: bodyLen == %s + 4 + %s && UnfI(%s) && UnfI(%s)", k, pre, sz, sz, szNext)
 	for _, fr := range append(append([]string(nil), w.frames...), g.copyFrames(t.Elem)...) {
 		g.line("  invariant loop %d: %s", k, fr)
 	}
@@ -1264,4 +1374,32 @@ func (g *SpecGen) marshalContract(r *Record) {
 	g.line("  ensures [SIZE] len(result) == old(%s)", g.sizeX(self, V))
 	g.line("  ensures [ENC] tr(result) == old(%s) && hw(result) == off(result) + len(result)", g.encX(self, "tr.empty", V))
 	g.line("  modifies fresh(byte), tr(), hw(), alloc()")
+}
+
+// minWire is the least number of bytes any encoding of a value of type t takes.
+func (g *SpecGen) minWire(t *Type) int {
+	if n := g.s.FixedSize(t); n > 0 {
+		return n
+	}
+	switch t.Kind {
+	case Prim:
+		return 4 // string
+	case Arr, MapK:
+		return 4
+	case Rec:
+		r := g.s.record(t.Name)
+		switch r.Kind {
+		case Message:
+			return 5
+		case Union:
+			return 5
+		case Struct:
+			n := 0
+			for _, f := range r.Fields {
+				n += g.minWire(f.Type)
+			}
+			return n
+		}
+	}
+	return 0
 }
